@@ -1,6 +1,16 @@
 """Sidecar contracts on the real gemseo functions, one module per property (DESIGN.md §4)."""
 
 PROPS = {
+    "C16": {
+        "level_text": "Proof, for all dimensions, points, steps and component subsets, that forward finite differences build the perturbation "
+                      "matrix x + h e_k column by column and return the exact difference quotients of the (uninterpreted) function; "
+                      "order-of-accuracy identities on polynomials as real-arithmetic lemmas.",
+        "level_note": "Trusted: pyvc, the numpy model (npmodel.py: rank<=2 real arrays, paired fancy indexing, tile/reshape/T pattern), reals for floats. "
+                      "Not covered: centered differences and complex step (complex arrays, norm), parallel evaluation, discipline-level wrappers, float rounding.",
+        "design_ref": "DESIGN.md §4 C16",
+        "modules": ["contracts.c16_derivatives"],
+        "not_covered": ["centered_differences.py", "complex_step.py", "derivatives_approx.py", "parallel gradient", "float cancellation error"],
+    },
     "C02": {
         "level_text": "Proof of the representation invariant of DesignSpace over its mutators.",
         "level_note": "see evidence",
